@@ -2,7 +2,7 @@
    Print Assumptions. *)
 From Coq Require Import ZArith List Bool.
 From Centro Require Import Base.LocalMaxGrid Model.LocalMax Spec.LocalMaxSpec
-  Proofs.LocalMaxShrink Proofs.LocalMaxIlm Proofs.LocalMaxReg Proofs.LocalMaxPlateau.
+  Proofs.LocalMaxShrink Proofs.LocalMaxIlm Proofs.LocalMaxReg Proofs.LocalMaxPlateau Proofs.LocalMaxFlood.
 Import ListNotations.
 Open Scope Z_scope.
 
@@ -57,19 +57,43 @@ Theorem C17_padded_read_safe : forall (A : Type) (pad : nat) (z : A) (l : list A
 Proof. exact @padded_read_safe. Qed.
 Print Assumptions C17_padded_read_safe.
 
-(* regional_maximum, ties allowed: for every image, mask and structure (any shape whose half
-   shape fits into the image; symmetric or not) the shifted-slice model marks exactly the pixels
-   that lie inside the mask and whose structure neighbours all lie inside image and mask and are
-   not larger. *)
+(* regional_maximum, ties allowed: for every image shape, mask and structure of any shape and
+   content (symmetric or not, centre set or not), the shifted-slice model with Python's slice
+   normalisation, broadcasting and boolean-mask shape rules EITHER returns exactly the pixels that
+   lie inside the mask and whose structure neighbours all lie inside image and mask and are not
+   larger, OR fails (NumPy's ValueError) - and it fails exactly when some set non-centre cell
+   lies at an offset off with n < |off| < 2n - 1 along an axis of length n (slices_okb false). *)
+Theorem C17_regional_maximum_ties_char : forall image mask (st : list (list bool)),
+  regional_maximum_ties image mask st
+  = if slices_okb image st
+    then Some (tab (length image) (length (hd [] image)) (reg_max_b image mask st)) else None.
+Proof. exact regional_maximum_ties_char. Qed.
+Print Assumptions C17_regional_maximum_ties_char.
+
 Theorem C17_regional_maximum_ties_spec : forall image mask (st : list (list bool)),
   let h := length image in
   let w := length (hd [] image) in
-  zlen st / 2 <= Z.of_nat h -> zlen (hd [] st) / 2 <= Z.of_nat w ->
+  slices_okb image st = true ->
   exists out, regional_maximum_ties image mask st = Some out /\ wf h w out /\
     forall y x, 0 <= y < Z.of_nat h -> 0 <= x < Z.of_nat w ->
       (get2 false out y x = true <-> reg_max_at image mask st y x).
 Proof. exact regional_maximum_ties_spec. Qed.
 Print Assumptions C17_regional_maximum_ties_spec.
+
+(* the hypothesis holds for every structure whose half shape fits into the image: every 3x3
+   structure on a non-empty image, in particular the default and the 4-connected one *)
+Theorem C17_slices_ok_fits : forall image (st : list (list bool)),
+  zlen st / 2 <= zlen image -> zlen (hd [] st) / 2 <= zlen (hd [] image) -> slices_okb image st = true.
+Proof. exact slices_okb_fits. Qed.
+Print Assumptions C17_slices_ok_fits.
+
+(* "index safety of the slice arithmetic for every structure and image shape" is refuted by the
+   faithful model: 3x3 image, 9x3 structure with a set cell 4 rows above the centre (the real code
+   raises ValueError on this input) *)
+Theorem C17_regional_maximum_slices_refuted :
+  exists image st, regional_maximum_ties image None st = None.
+Proof. exact regional_maximum_slices_refuted. Qed.
+Print Assumptions C17_regional_maximum_slices_refuted.
 
 Theorem C17_rm_check_sound : forall image mask st out, rm_check image mask st out = true ->
   wf (length image) (length (hd [] image)) out /\
@@ -102,6 +126,35 @@ Theorem C17_one_per_plateau : forall (label : list (list bool) -> list (list Z) 
               wf h w out /\ one_per_component (get2 false result) (get2 false out).
 Proof. exact one_per_plateau. Qed.
 Print Assumptions C17_one_per_plateau.
+
+(* the hypotheses of C17_one_per_plateau are discharged once and for all for executable instances:
+   the flood-fill labelling (minimum propagation to a fixpoint, fuel always sufficient, then
+   renumbering) numbers the 8-components of ANY well-formed set with 1..count ... *)
+Theorem C17_label_inst_ok : forall (h w : nat) (s : list (list bool)),
+  wf h w s -> shape2 s = (h, w) ->
+  labelling_ok (get2 false s) (get2 0 (fst (label_inst s))) (snd (label_inst s)).
+Proof. exact inst_labelling_ok. Qed.
+Print Assumptions C17_label_inst_ok.
+
+(* ... so the ties-not-allowed model built from the instances marks exactly one pixel of every
+   8-connected plateau whenever the ties-allowed pass returns - no hypotheses on library calls *)
+Theorem C17_one_per_plateau_inst : forall image mask st result,
+  regional_maximum_ties image mask st = Some result ->
+  exists out, regional_maximum label_inst ro_distance_inst maximum_position_inst image mask st false = Some out /\
+              wf (length image) (length (hd [] image)) out /\
+              one_per_component (get2 false result) (get2 false out).
+Proof. exact one_per_plateau_inst. Qed.
+Print Assumptions C17_one_per_plateau_inst.
+
+Theorem C17_one_per_plateau_inst_total : forall image mask (st : list (list bool)),
+  slices_okb image st = true ->
+  exists result out,
+    regional_maximum_ties image mask st = Some result /\
+    regional_maximum label_inst ro_distance_inst maximum_position_inst image mask st false = Some out /\
+    wf (length image) (length (hd [] image)) out /\
+    one_per_component (get2 false result) (get2 false out).
+Proof. exact one_per_plateau_inst_total. Qed.
+Print Assumptions C17_one_per_plateau_inst_total.
 
 (* the certificate checker evaluated on the implementation's ties-not-allowed output is sound:
    acceptance (for any certificate) implies exactly one marked pixel in every 8-connected
